@@ -32,7 +32,7 @@ type SubOp struct {
 
 // StreamFault: one failure of the discovery stream machinery.
 type StreamFault struct {
-	Kind  string `json:"kind"`               // create | send | recv | send-stall (the n-th Send takes Stall scheduler steps: a slow peer)
+	Kind  string `json:"kind"` // create | send | recv | send-stall (the n-th Send takes Stall scheduler steps: a slow peer)
 	Stall int    `json:"stall,omitempty"`
 	After int    `json:"after"`              // create: the n-th creation fails; send: the n-th Send overall fails; recv: steps after the stream came up
 	Abs   int    `json:"abs_step,omitempty"` // enumeration: fire before this global step (recv/send on whatever stream is up)
